@@ -276,6 +276,21 @@ def run(ctx):
                 ctx.violation("fresh-python-zone-set:" + tag, {"source": src, "scope": scope}, "%s: Python database and tzdb.json list different zones" % tag)
             for mn in ("zone_policies", "zone_infos"):
                 sys.modules.pop("c11fresh_" + mn, None)
+    # two zone names with the same djb2 value through the whole compiler, in both scopes: it must refuse the source or emit
+    # a database whose ids are unique
+    if djb2("Test/Az") != djb2("Test/BY"):
+        raise vt.HarnessError("collision pair wrong")
+    csrc = "Zone\tTest/Az\t1:00\t-\tAAA\nZone\tTest/BY\t2:00\t-\tBBB\nZone\tTest/Other\t3:00\t-\tCCC\n"
+    for scope in ("extended", "basic"):
+        rr = compilelib.compile_source(work, "collide_" + scope, csrc, scope, "arduino", db_namespace="col" + scope[0], actions="zonedb,tzdb")
+        ctx.evaluations += 1
+        nt.add(("collision-through-compiler", scope))
+        if rr["rc"] == 0:
+            tzc = compilelib.load_tzdb_json(rr["outdir"])
+            emitted_ = sorted(tzc["zones_map"])
+            if len(set(djb2(n_) for n_ in emitted_)) != len(emitted_):
+                ctx.violation("collision-emitted:" + scope, {"source": csrc, "scope": scope, "emitted": emitted_},
+                              "%s scope: the compiler emitted %s although Test/Az and Test/BY have the same djb2 id 0x%08x" % (scope, emitted_, djb2("Test/Az")))
     # generated: hash_name == djb2 on arbitrary names; collision detection fires iff two names collide
     pos = [0, 0, 0]
 
